@@ -64,6 +64,11 @@ class Symbol(DimensionSymbol, SymSymbol):  # type: ignore[misc]  # pylint: disab
 # This is default index for indexed parameters, e.g. for using in IndexedSum
 global_index = Idx("i")
 
+# Display name, index, dimension and LaTeX name of the indexed symbols created so far, by internal
+# name. SymPy rebuilds an `IndexedBase` from its label (e.g. in `doit()` or `simplify()`) and the
+# rebuilt object must keep them.
+_indexed_symbol_attributes: dict[str, tuple[str, Idx, Dimension, str]] = {}
+
 
 class IndexedSymbol(DimensionSymbol, IndexedBase):  # type: ignore[misc]  # pylint: disable=too-many-ancestors
     index: Idx
@@ -90,9 +95,18 @@ class IndexedSymbol(DimensionSymbol, IndexedBase):  # type: ignore[misc]  # pyli
         *,
         display_latex: Optional[str] = None,
         **_assumptions: Any) -> None:
+        known = _indexed_symbol_attributes.get(str(name_or_symbol)) if isinstance(
+            name_or_symbol, SymSymbol) else None
+        if known is not None:
+            display_name, self.index, dimension, display_latex = known
+            super().__init__(display_name, dimension, display_latex=display_latex)
+            return
+
         display_name = str(self.name) if name_or_symbol is None else str(name_or_symbol)
         self.index = index or global_index
         super().__init__(display_name, dimension, display_latex=display_latex)
+        _indexed_symbol_attributes[str(self.name)] = (self.display_name, self.index,
+            self.dimension, self.display_latex)
 
     def _eval_nseries(self, x: Any, n: Any, logx: Any, cdir: Any) -> Any:
         pass
